@@ -2,6 +2,12 @@
 REF = "runtime reference-model monitor"
 NOT_APPLICABLE = {}
 TEXT = {
+    "C01": {
+        "text": "Every prime-field operation and conversion is executed for 204 configurations (82 generated moduli covering 1..13 limbs, tiny, Mersenne, no-spare-bit, top-limb 2^63-1 shapes, each as derive-macro config and as hand-written config inheriting the trait's default arithmetic, plus all 40 shipped Fq/Fr) on operands injected as raw Montgomery limbs from structural, correlated (raw sum = p, >= 2^(64N), b = 1/a), limb-spliced and uniform distributions; every result must be canonical (< p) and equal the num-bigint result. Tiny fields enumerate all p^2 pairs. Per-configuration required observation classes (carry out of the top limb on no-spare-bit moduli, several sum_of_products chunks, rejected integers >= p, ...) make a run that missed a mechanism inconclusive.",
+        "design_ref": "DESIGN.md §4 C01",
+        "note": "num-bigint is the trusted oracle; operands are sampled except on tiny fields; asm feature and padded limb counts are out of scope of this check (see DESIGN §7).",
+        "technique": REF + " (num-bigint oracle on raw Montgomery limbs, panic capture)",
+    },
     "C15": {
         "text": "Every BigInt<N> operation (N=1..13) is executed on edge-biased and uniform operands and compared with num-bigint, including carry/borrow flags, all shift classes, both endiannesses, parsing/printing and the three signed-digit recodings (reconstruction + digit constraints); recodings are exhaustive over 0..2^16 and the mirrored top-of-range values. Held-on-observed-executions, with required observation classes (carry out of the top limb etc.) that make an empty run inconclusive.",
         "design_ref": "DESIGN.md §4 C15",
